@@ -97,6 +97,12 @@ impl TXT {
                 "TXT needs at least one character-string",
             ));
         }
+        // RFC 1035 3.3: a <character-string> holds at most 255 octets
+        if txt_data.iter().any(|s| s.len() > 255) {
+            return Err(ParseError::Message(
+                "character-string longer than 255 octets",
+            ));
+        }
         Ok(Self::new(txt_data))
     }
 }
